@@ -9,7 +9,21 @@ import traceback
 from vlib.collect import Collector
 
 
+def load_arena_cache():
+    """Allocator tuning only (see vlib/native/arena_cache.c); optional."""
+    import ctypes
+    so = os.path.join(os.path.dirname(os.path.dirname(os.path.abspath(__file__))), '.deps', 'arena_cache.so')
+    if os.path.exists(so) and not os.environ.get('VERIF_NO_ARENA_CACHE'):
+        try:
+            ctypes.CDLL(so, mode=ctypes.RTLD_GLOBAL).verif_install_arena_cache()
+            return True
+        except Exception:
+            return False
+    return False
+
+
 def main():
+    load_arena_cache()
     with open(sys.argv[1]) as f:
         job = json.load(f)
     pid = job['pid']
